@@ -583,7 +583,17 @@ func runSteps(run *core.Run, bin string, tasks []stepTask, procs int) []stepResu
 	return results
 }
 
-func evaluateFamilies(run *core.Run, results []stepResult) {
+func max0(i int) int {
+	if i < 0 {
+		return 0
+	}
+	return i
+}
+
+// evaluateFamilies judges the measurements; it returns the families whose LAST doubling alone was above the bound
+// (suspects): the caller re-measures those cold at larger sizes.
+func evaluateFamilies(run *core.Run, results []stepResult) map[string]bool {
+	suspects := map[string]bool{}
 	by := map[string][]stepResult{}
 	for _, r := range results {
 		if r.Family != "" {
@@ -622,11 +632,24 @@ func evaluateFamilies(run *core.Run, results []stepResult) {
 				lr := float64(r.Len) / float64(rs[i-1].Len)
 				exp := logf(ratio) / logf(lr)
 				if float64(r.Steps) > 5e6 {
-					if exp > worstRatio && fam.known == "" {
-						worstRatio, worstName = exp, name
+					// the growth must be sustained: ANTLR's prediction caches make single steps jumpy (a family that
+					// is cheap while the cache covers it can jump by 300x at the next size and be quadratic from
+					// there on), so the exponent of the previous doubling must be above the bound as well
+					prevExp := 99.0
+					if i >= 2 && rs[i-2].Steps > 0 && rs[i-1].Len > rs[i-2].Len {
+						prevExp = logf(float64(rs[i-1].Steps)/float64(rs[i-2].Steps)) / logf(float64(rs[i-1].Len)/float64(rs[i-2].Len))
 					}
-					if exp > 2.6 {
-						bad = fmt.Sprintf("growth exponent %.2f between %d and %d bytes (%d -> %d steps)", exp, rs[i-1].Len, r.Len, rs[i-1].Steps, r.Steps)
+					sustained := exp
+					if prevExp < sustained {
+						sustained = prevExp
+					}
+					if sustained > worstRatio && fam.known == "" {
+						worstRatio, worstName = sustained, name
+					}
+					if exp > 2.6 && prevExp > 2.6 {
+						bad = fmt.Sprintf("growth exponents %.2f and %.2f over the last two doublings (%d -> %d -> %d steps for %d -> %d bytes)", prevExp, exp, rs[max0(i-2)].Steps, rs[i-1].Steps, r.Steps, rs[i-1].Len, r.Len)
+					} else if exp > 2.6 {
+						suspects[name] = true
 					}
 				}
 			}
@@ -642,7 +665,8 @@ func evaluateFamilies(run *core.Run, results []stepResult) {
 		}
 		run.Violation("work-not-quadratic:"+name, &core.Case{Kind: "family", Text: name, Extra: map[string]string{"measurements": line}}, "steps bounded by a quadratic function of the input length", bad+"\n"+line)
 	}
-	run.Note("largest growth exponent among families above the floor (known-finding families excluded): %.2f (%s)", worstRatio, worstName)
+	run.Note("largest sustained growth exponent among families above the floor (known-finding families excluded): %.2f (%s)", worstRatio, worstName)
+	return suspects
 }
 
 func logf(x float64) float64 { return math.Log(x) }
@@ -696,7 +720,29 @@ func runC08(run *core.Run) {
 		}
 	}
 	res := runFamilyTasks(run, bin, tasks)
-	evaluateFamilies(run, res)
+	suspects := evaluateFamilies(run, res)
+	// suspects: only the last doubling was above the bound - measured again in a fresh process at the two largest
+	// sizes and two further doublings, and judged by the same sustained-growth rule
+	if len(suspects) > 0 {
+		var st []stepTask
+		var names []string
+		for n := range suspects {
+			names = append(names, n)
+		}
+		sort.Strings(names)
+		for _, n := range names {
+			f := stepFamilies()[n]
+			last := f.sizes[len(f.sizes)-1]
+			for _, k := range []int{last / 2, last, last * 2, last * 4} {
+				st = append(st, stepTask{Family: n, N: k})
+			}
+		}
+		run.Count("families_remeasured_at_larger_sizes", int64(len(names)))
+		again := evaluateFamilies(run, runFamilyTasks(run, bin, st))
+		for n := range again {
+			run.Note("family %s: super-quadratic growth on the last doubling only, twice (not sustained)", n)
+		}
+	}
 	// random mutants held to the absolute bound
 	var mt []stepTask
 	nm := run.N(300, 8000)
